@@ -690,3 +690,7 @@ def check(case):
                                                            [w[0] for w in sorted(want)]))
                 case.close(np.array(got_a), np.array(sorted(want)), rtol=1e-9,
                            what='dose rows sampled from the averaged model')
+
+
+RULE += (' Classes and clauses added in later rounds of the seeded-change protocol (DESIGN 9.4) are named in REQUIRED '
+         'and in seeded/HISTORY.json; the evidence counts every one of them under classes.')
